@@ -36,15 +36,16 @@ CANDS = {
     "r/sub": "dir",
     "r/sub/k.py": "file",
     "r/subx.py": "file",
+    "r/sub/k2.py": "file",
 }
 LINES = {
     "r/m.py": ["import logging", "import logging.handlers", "import os.path", "import rx.util", "import handlers", "import r.handlers", "from r.sub import k"],
-    "r/sub/k.py": ["import logging.handlers", "import r.m", "import r.subx"],
+    "r/sub/k.py": ["import logging.handlers", "import r.m", "import r.subx", "from . import k2"],
     "r/handlers.py": ["import logging"],
 }
 LINES_SMALL = {
     "r/m.py": ["import logging.handlers", "import handlers", "import r.handlers", "import rx.util", "from r.sub import k"],
-    "r/sub/k.py": ["import logging.handlers", "import r.m", "import r.subx"],
+    "r/sub/k.py": ["import logging.handlers", "import r.m", "import r.subx", "from . import k2"],
 }
 FIXED = {p: True for p in CANDS if "/" in p}
 
@@ -116,6 +117,22 @@ def judge(view, mp_rel: str, cfg, got, default):
     ii0 = {(u, v) for u, v in imp0 if is_int(u) and is_int(v)}
     if ii != ii0:
         return ("MISMATCH", f"internal imports as in the default configuration {sorted(ii0)}", f"internal imports {sorted(ii)}")
+    # ... and equal to what the import lines say (the C02 naming rule, restated in vf/props/c04.line_targets)
+    from vf.props.c04 import line_targets
+
+    prefix = "" if "/" not in mp_rel else dotted(os.path.dirname(mp_rel))
+    want_ii = set()
+    for p in ex:
+        if CANDS[p] != "file" or not (p == mp_rel or p.startswith(mp_rel + "/")):
+            continue
+        importer = dotted(p)
+        for ln in txt.get(p, []):
+            for t in line_targets(ln, importer, scanned, prefix):
+                if t in scanned and t != importer and t not in ancestors(importer):
+                    want_ii.add((importer, t))
+    anc_pairs = {(u, v) for u, v in ii if v in ancestors(u)}
+    if (ii - anc_pairs) != want_ii:
+        return ("MISMATCH", f"internal imports {sorted(want_ii)}", f"internal imports {sorted(ii - anc_pairs)}")
     # externals
     named = []  # (importer, external module named by a present line)
     for p in ex:
@@ -123,6 +140,8 @@ def judge(view, mp_rel: str, cfg, got, default):
             continue
         for ln in txt.get(p, []):
             node = ast.parse(ln).body[0]
+            if isinstance(node, ast.ImportFrom) and node.level > 0:
+                continue  # relative imports name internal modules
             names = [a.name for a in node.names] if isinstance(node, ast.Import) else [node.module]
             for nm in names:
                 if nm not in scanned and not (isinstance(node, ast.ImportFrom) and f"{node.module}.{node.names[0].name}" in scanned):
